@@ -17,7 +17,20 @@ import time
 from typing import Any, Dict, List, Optional
 
 from bounded.c01_cases import Watchdog, _alarm_handler, _exc_record, struct_to_json
-from bounded.grammars import GRAMMARS
+from bounded.grammars import GRAMMARS as _BASE_GRAMMARS
+
+#: the reference grammars plus `wide1`: the language of `wide` with a single-alternative start symbol
+#: (ISLa's EarleyParser only accepts such start symbols)
+GRAMMARS = dict(_BASE_GRAMMARS)
+GRAMMARS["wide1"] = {
+    "<start>": ["<top>"],
+    "<top>": ["<c>", "<row30>", "<row40>"],
+    "<row30>": ["<c>" * 30],
+    "<row40>": ["<c>" * 40],
+    "<c>": ["x", "y"],
+}
+#: a grammar whose start symbol is recursive (reachable from itself)
+GRAMMARS["recstart"] = {"<start>": ["<A>"], "<A>": ["(<start>)", "x"]}
 
 
 class _Budget:
